@@ -53,6 +53,8 @@ def cases(ctx):
     for i in range(ctx.pick(900, 9000)):
         mode = MODES[i % len(MODES)]
         nd = rng.randint(1, 4)
+        if mode == "heatmap" and rng.random() < 0.3:
+            nd = 0          # a plain two-dimensional z(x, y): nothing to map, nothing to aggregate
         dims = rng.sample(DIMS, nd)
         sizes = {d: rng.randint(1, 3) for d in dims}
         c = {"mode": mode, "dims": dims, "sizes": sizes, "nx": rng.randint(2, 6), "dseed": rng.randint(0, 10 ** 9),
